@@ -12,7 +12,13 @@ to the dimension bound; in every configuration the differential is taken at ever
 
 The numerical rank of J (singular values, dead band between the rounding floor and the decision threshold) must equal the
 dimension of the manifold, taken from a table written from the mathematics (`manifold_dim`), not from numqi's parameter counts.
-The parameter counts of the module constructors are compared with the table as well (count >= dimension, == for minimal charts).
+The parameter counts of the module constructors are compared with the table as well (count >= dimension, == for minimal charts);
+for the float32 / complex64 constructors this comparison is the whole check (no single-precision Jacobians).
+Further coordinates: rank=None (Trace1PSD / density_matrix / to_trace1_psd_*: table entry of rank = dim), batch_size=1,
+QuantumChannel(dim_in=1). Two module families have no table entry and are compared with a reference differential instead:
+SeparableDensityMatrix (the harness's own mixture formula; default num_cha: table entry (dA*dB)^2-1, proved per configuration by
+the reference rank) and QuantumChannel(choi) over a chart of Stiefel modulo column phases (chain rule through the harness's own
+Kraus->Choi differential applied to the Jacobian of the kraus twin of the same module).
 """
 import numpy as np
 
@@ -23,16 +29,21 @@ PROPERTY = 'C02'
 LEVEL = 'model_checking'
 RULE = ('state = (map or nn.Module class, dim, rank, field, method/options, backend, atom): the configuration product up to the dimension '
         'bound x the finite atom list is enumerated completely; transition = one Jacobian of the real numqi map (torch autograd, or '
-        'numpy central differences) whose numerical rank is compared with the manifold dimension table; '
+        'numpy central differences) whose numerical rank is compared with the manifold dimension table (SeparableDensityMatrix with explicit '
+        'num_cha and QuantumChannel(choi) over a phase-free chart: with the rank of a reference differential at the same point); the configuration '
+        'product includes rank=None, batch_size in {None,1,3}, QuantumChannel(dim_in=1) and the 32-bit constructors (parameter count versus table only); '
         'non-trivial = observed rank > 0 (distinct (configuration, rank, rounded singular values))')
 ASSUMPTIONS = [
     'torch.autograd.functional.jacobian (float64) is the differential of the torch branch; the hand-written backward of PSDMatrixSqrtm is trusted here (it is the subject of C04); its agreement with the finite-difference Jacobian of the numpy branch is measured and counted (autograd_vs_numpy_fd_mismatch), not used as a verdict',
     'numerical rank: singular values above hi=1e4*lo count, below lo=1e3*eps*kappa*sigma_1 are zero, a singular value inside (lo,hi] makes the atom undecided (counted, never a violation); kappa is the independent conditioning estimate of the configuration (C01 table)',
     'generic point statement only: the rank is decided at the listed atoms (see atom_list: one deterministic chirp vector, G drawn vectors with |theta_i| in [0.4,1.2], G normal draws); nothing is claimed on the measure-zero set where a chart degenerates',
     'so-exp / so-cayley Stiefel charts parametrise "the first r columns of SO(d)/SU(d)": dimension min(2dr-r^2, d^2-1) in the complex case (documented construction)',
-    'the phase-free complex Euler chart and the complex choleskyL chart (documented "minimum parameters") parametrise the Stiefel manifold modulo column phases: dimension 2dr-r^2-r (= their parameter count, as the property states for minimal charts); their composition with the Kraus->Choi map has no manifold of its own and is not checked',
+    'the phase-free complex Euler chart and the complex choleskyL chart (documented "minimum parameters") parametrise the Stiefel manifold modulo column phases: dimension 2dr-r^2-r (= their parameter count, as the property states for minimal charts); their composition with the Kraus->Choi map has no manifold of its own: there rank(d choi/d theta) must equal rank(D x d kraus/d theta) with D the harness\'s own differential of K -> sum_k K_k (x) conj(K_k) at the Kraus operators the kraus twin of the module returns (chain rule; the kraus twin itself is checked against the table)',
     'a supposed-zero singular value that sticks out of the rounding noise by a factor > 1e2 (and > 1e2*eps*sigma_1) makes the atom undecided: it is a true direction near a coordinate singularity, not a zero',
-    'SeparableDensityMatrix is not covered (no closed-form dimension of the secant variety in the property statement); QuantumChannel modules are bounded by the size of the underlying Stiefel chart (<= 6 quick, <= 9 thorough)',
+    'SeparableDensityMatrix, default num_cha: expected rank (dA*dB)^2-1 (the separable set contains a ball around the maximally mixed state, so it is full-dimensional in the trace-one Hermitian operators; that the library\'s number of product terms reaches it follows from lower semicontinuity of the rank once the harness\'s own mixture formula has rank (dA*dB)^2-1 at one point - counted as table_entry_proved_by_reference_rank); explicit num_cha: no closed-form dimension of the secant variety is assumed, the rank must equal the rank of the harness\'s own mixture formula (softmax weights, normalised complex vectors, as in C01) at the same parameters; the number of product terms of the default is read off the parameter count',
+    'QuantumChannel modules are bounded by the size of the underlying Stiefel chart (<= 6 quick, <= 9 thorough); more Kraus operators than dim_in*dim_out (only dim_in=dim_out=1) cannot raise the Choi rank: table entry with min(choi_rank, dim_in*dim_out)',
+    'float32 / complex64: no Jacobian verdicts (finite differences and singular-value gaps of single-precision Jacobians are not decidable with the dead band of this check: C*eps32*GAP > 1); the 32-bit module constructors are covered by the parameter-count comparison only (count >= dimension, == for minimal charts), the 32-bit functional maps not at all',
+    'rank=None is passed to numqi as documented; table, conditioning estimate and expected theta length are those of rank = dim; a precondition rejection of rank=None is a violation because the same theta is accepted with rank = dim',
 ]
 
 EPS = np.finfo(np.float64).eps
@@ -82,6 +93,11 @@ def manifold_dim(name, c):
     if name == 'sym_to_psd':
         return (d * (d + 1) // 2 - 1) if real else (d * d - 1)   # full-rank trace-one PSD matrices
     raise ValueError(name)
+
+
+def phase_free_choi(c):
+    """QuantumChannel(return_kind='choi') over a chart of Stiefel modulo column phases: the Choi image has no manifold of its own"""
+    return c['cls'] == 'QuantumChannel' and c['return_kind'] == 'choi' and ((c['method'] == 'euler' and not c['phase']) or c['method'] == 'choleskyL')
 
 
 def is_minimal_chart(name, c):
@@ -216,6 +232,22 @@ def verdict(out, site, kk, label, got, expect, s, what_cfg, **detail):
 
 
 # ------------------------------------------------------------------------------------------------ cases
+def module_config_list(mdims):
+    """C01's module configurations (both precisions, batch None / 3) plus the coordinates C01 does not enumerate:
+    QuantumChannel(dim_in=1) (state preparations), rank=None (Trace1PSD / density_matrix default: full rank), batch_size=1."""
+    base = [dict(c) for c in c01.module_configs(mdims)]
+    base += [dict(c) for c in c01.module_configs([1]) if c['cls'] == 'QuantumChannel']  # dim_in=1 (every other class asserts dim>=2)
+    base += [dict(c, rank=None) for c in base if c['cls'] in ('Trace1PSD', 'density_matrix') and c.get('rank') == c['dim']]
+    base += [dict(c, batch=1) for c in base if c['batch'] is None]
+    seen, ret = set(), []
+    for c in base:  # C01 is free to grow the same coordinates: no configuration twice
+        k = repr(sorted(c.items(), key=lambda kv: kv[0]))
+        if k not in seen:
+            seen.add(k)
+            ret.append(c)
+    return ret
+
+
 def build_cases(tier, seed):
     dims = [2, 3, 4] if tier == 'quick' else [2, 3, 4, 5]
     cases = []
@@ -232,20 +264,26 @@ def build_cases(tier, seed):
                                 c['rank'] = rank
                             c.update(ex)
                             cases.append(c)
+                            if name == 'trace1psd' and rank == dim:
+                                cases.append(dict(c, rank_none=True))  # the documented default rank=None (= dim) is passed to numqi
     mdims = [2, 3] if tier == 'quick' else [2, 3, 4]
-    for c in c01.module_configs(mdims):
+    bound = 6 if tier == 'quick' else 9
+    for c in module_config_list(mdims):
         if c['prec'] != 64:
+            # 32-bit constructors: parameter-count comparison only (finite differences / rank gaps are not decidable in single
+            # precision), no size bound needed: nothing but the constructor runs
+            cases.append(dict(c, count_only=True))
             continue
-        if c['cls'] == 'SeparableDensityMatrix':
-            continue  # see NOT COVERED in the module docstring of run_module
         if c['cls'] == 'QuantumChannel':
             cr = c['dim'] * c['dim_out'] if c['choi_rank'] is None else c['choi_rank']
-            if cr * c['dim_out'] > (6 if tier == 'quick' else 9):
+            if cr * c['dim_out'] > bound:
                 continue  # the underlying Stiefel(cr*dim_out, dim_in) chart is kept inside the dimension bound of the functional maps (+1)
-            if c['return_kind'] == 'choi' and ((c['method'] == 'euler' and not c['phase']) or c['method'] == 'choleskyL'):
-                continue  # Stiefel modulo column phases does not descend to Choi operators: no manifold to compare with
-        if tier == 'quick' and c['batch'] is not None and c['cls'] == 'QuantumChannel' and cr * c['dim_out'] > 4:
-            continue  # quick: batch 3 for the small channel charts only (thorough: everywhere)
+            if tier == 'quick' and c['batch'] is not None and cr * c['dim_out'] > 4:
+                continue  # quick: batches for the small channel charts only (thorough: everywhere)
+        if tier == 'quick' and c['batch'] == 1 and c['dim'] > 2:
+            continue  # quick: batch_size=1 at the smallest dimension (and every dim_in=1 channel); thorough: everywhere
+        if tier == 'quick' and c['cls'] == 'SeparableDensityMatrix' and c['batch'] is not None and c['dim'] * c['dimB'] > 4:
+            continue  # quick: batched mixtures for two qubits only (2x3, 3x3 unbatched; thorough: everywhere)
         cases.append(dict(c))
     cases.sort(key=lambda c: (c['dim'], c.get('rank') or 0, c['kind']))
     G = 2 if tier == 'quick' else 6
@@ -254,7 +292,10 @@ def build_cases(tier, seed):
                               'normal': 'G x N(0,1) (autograd only)', 'init': "the module's own initial theta (modules only)"},
             'atoms_per_config': {'numpy': 1 + G, 'torch': 1 + 2 * G, 'module': 2 + 2 * G},
             'backends': ['torch autograd', 'numpy central differences (h=1e-4 and 2e-4)'],
-            'module_batch_sizes': [None, 3], 'quantum_channel_stiefel_dim_bound': 6 if tier == 'quick' else 9,
+            'module_batch_sizes': [None, 1, 3], 'module_precisions': {64: 'Jacobian rank + parameter count', 32: 'parameter count only'},
+            'rank_none': 'Trace1PSD, density_matrix, to_trace1_psd_cholesky, to_trace1_psd_ensemble', 'quantum_channel_dim_in': [1] + mdims,
+            'separable': {'dims': 'dA in dims_modules, dB in (2,3)', 'num_cha': [None, 2, 3]},
+            'quick_tier_restrictions': 'batch_size=1 at dim 2 (and dim_in=1) only; batched SeparableDensityMatrix for 2x2 only; batched channels for charts <= 4', 'quantum_channel_stiefel_dim_bound': 6 if tier == 'quick' else 9,
             'dead_band': {'autograd': 'zero below lo=1e3*eps*kappa*sigma_1, non-zero above 1e4*lo',
                           'finite_differences': 'zero below tau=sqrt(mn)*(2|J_2h-J_h|+1e3*eps*|f|/h), non-zero above 1e2*tau'},
             'exhaustive': True,
@@ -263,8 +304,11 @@ def build_cases(tier, seed):
     return cases, info
 
 
-def key_opts(c, keys=('method', 'field', 'phase', 'trace0', 'norm1', 'return_kind', 'weight')):
-    return ','.join('%s=%s' % (k, c[k]) for k in keys if k in c)
+def key_opts(c, keys=('method', 'field', 'phase', 'trace0', 'norm1', 'return_kind', 'weight', 'num_cha')):
+    ret = ','.join('%s=%s' % (k, c[k]) for k in keys if k in c)
+    if c.get('rank_none') or ('rank' in c and c['rank'] is None):
+        ret += ',rank=None'  # a defect of the rank=None default gets its own key
+    return ret
 
 
 # ------------------------------------------------------------------------------------------------ functional maps
@@ -283,6 +327,8 @@ def run_func(case, out, env):
     G = 2 if env.tier == 'quick' else 6
     # the atoms depend on (map, options, dim, rank, field) but NOT on the backend: both backends see the same points
     atoms = atom_list(n, env, G, c['backend'] == 'torch', name, ck)
+    # rank_none: numqi is called with rank=None (documented default, = dim); table, kappa and parameter count use rank = dim
+    cc = dict(c, rank=None) if c.get('rank_none') else c
 
     # parameter count versus dimension (table is independent of the count formula)
     if n < expect:
@@ -305,7 +351,7 @@ def run_func(case, out, env):
             fs = [1.0]
 
             def f(t):
-                y = spec.call(numqi, t, c)
+                y = spec.call(numqi, t, cc)
                 if y.is_complex():
                     y = torch.cat([y.real.reshape(-1), y.imag.reshape(-1)])
                 else:
@@ -317,7 +363,7 @@ def run_func(case, out, env):
                     J = torch.autograd.functional.jacobian(f, tt).detach().numpy()
                 out.trans()
             except Exception as e:
-                if core.is_precondition_assert(e):
+                if core.is_precondition_assert(e) and not c.get('rank_none'):  # rank=None is documented and the same theta is accepted with rank=dim
                     out.count('rejected_by_precondition')
                     continue
                 fail('jacobian_raises_%s' % type(e).__name__, 'autograd Jacobian raised %r at theta=%s' % (e, th.tolist()), theta=th)
@@ -329,12 +375,12 @@ def run_func(case, out, env):
         else:
             def fnp(P):
                 with np.errstate(all='ignore'):
-                    return c01.to_np64(spec.call(numqi, P, c))
+                    return c01.to_np64(spec.call(numqi, P, cc))
             try:
                 J, err, finite = fd_jacobian(fnp, th)
                 out.trans()
             except Exception as e:
-                if core.is_precondition_assert(e):
+                if core.is_precondition_assert(e) and not c.get('rank_none'):  # rank=None is documented and the same theta is accepted with rank=dim
                     out.count('rejected_by_precondition')
                     continue
                 fail('call_raises_%s' % type(e).__name__, 'batched numpy call raised %r around theta=%s' % (e, th.tolist()), theta=th)
@@ -345,7 +391,7 @@ def run_func(case, out, env):
             got, s, why = rank_fd(J, err)
             # trusted-base monitor: numpy finite differences versus torch autograd of the same map (not a verdict)
             try:
-                Jt = torch.autograd.functional.jacobian(lambda t: _flat_real(torch, spec.call(numqi, t, c)), torch.tensor(th, dtype=torch.float64)).numpy()
+                Jt = torch.autograd.functional.jacobian(lambda t: _flat_real(torch, spec.call(numqi, t, cc)), torch.tensor(th, dtype=torch.float64)).numpy()
                 if Jt.shape == J.shape and np.abs(Jt - J).max() > err:
                     out.count('autograd_vs_numpy_fd_mismatch')
             except Exception:
@@ -373,6 +419,8 @@ def module_expectation(c, mod):
     """(dimension per sample, kappa spec name/config or None, spec name for minimality) for a module configuration"""
     cls = c['cls']
     fc = dict(c)
+    if 'rank' in fc and fc['rank'] is None:
+        fc['rank'] = fc['dim']  # documented default of Trace1PSD / density_matrix: full rank
     if cls == 'PositiveReal':
         return 1, None, ('positive_real', dict(fc, dim=1))
     if cls == 'OpenInterval':
@@ -395,39 +443,93 @@ def module_expectation(c, mod):
         din, dout = c['dim'], c['dim_out']
         cr = din * dout if c['choi_rank'] is None else c['choi_rank']
         sc = {'method': c['method'], 'dim': cr * dout, 'rank': din, 'field': 'complex', 'phase': c['phase']}
-        if c['return_kind'] == 'kraus':
-            # Kraus operators = the (cr*dout) x din isometry reshaped: dimension of the Stiefel chart
+        if c['return_kind'] == 'kraus' or phase_free_choi(c):
+            # Kraus operators = the (cr*dout) x din isometry reshaped: dimension of the Stiefel chart. (phase-free chart composed
+            # with Kraus->Choi: this number is used for the parameter count only, the rank oracle is the chain rule, see run_module)
             return manifold_dim('stiefel', sc), ('stiefel', sc), None
-        # Choi operators of rank <= cr: PSD of rank cr on C^(dout*din) (2*N*cr - cr^2, N = dout*din) with Tr_out = 1 (din^2 conditions)
+        # Choi operators of rank <= cr: PSD of rank cr on C^(dout*din) (2*N*cr - cr^2, N = dout*din) with Tr_out = 1 (din^2 conditions).
+        # More Kraus operators than N = dout*din (only dim_in = dim_out = 1 in the enumeration) cannot raise the rank above N.
+        cr = min(cr, dout * din)
         return 2 * dout * din * cr - cr * cr - din * din, ('stiefel', sc), None
+    if cls == 'SeparableDensityMatrix':
+        # default num_cha (=2*dA*dB product terms): the separable set has non-empty interior in the trace-one Hermitian operators
+        # (it contains a ball around the maximally mixed state), so its dimension is D-1, D=(dA*dB)^2, and this is an upper bound
+        # for every num_cha. That 2*dA*dB terms reach it is not a theorem quoted here but is PROVED per configuration by the
+        # harness: the rank of a real-analytic map is lower semicontinuous, so one point where the harness's own mixture formula
+        # has a differential of rank D-1 shows that the generic rank is D-1 (run_module requires rank J_ref == D-1 there).
+        # explicit num_cha: no table; the reference is the rank of the harness's own mixture formula at the same point.
+        D = (c['dim'] * c['dimB']) ** 2
+        return (D - 1 if c['num_cha'] is None else None), None, None
     raise ValueError(cls)
 
 
+def separable_mixture(torch, row, dA, dB, nc):
+    """the harness's own formula for one sample of SeparableDensityMatrix (the mixture C01 recomputes from the raw parameters):
+    row = [softmax logits (nc) | psiA (nc x [re dA, im dA]) | psiB (nc x [re dB, im dB])] -> real view of sum_c p_c |a_c b_c><a_c b_c|"""
+    tp = row[:nc]
+    ta = row[nc:nc + nc * 2 * dA].reshape(nc, 2 * dA)
+    tb = row[nc + nc * 2 * dA:].reshape(nc, 2 * dB)
+    p = torch.exp(tp - tp.max().detach())
+    p = p / p.sum()
+    a = torch.complex(ta[:, :dA], ta[:, dA:]) / torch.sqrt((ta * ta).sum(dim=1, keepdim=True))
+    b = torch.complex(tb[:, :dB], tb[:, dB:]) / torch.sqrt((tb * tb).sum(dim=1, keepdim=True))
+    ab = (a[:, :, None] * b[:, None, :]).reshape(nc, dA * dB)
+    rho = torch.einsum('c,ci,cj->ij', p.to(ab.dtype), ab, ab.conj())
+    return torch.cat([rho.real.reshape(-1), rho.imag.reshape(-1)])
+
+
+def separable_ref_jacobian(torch, row, dA, dB, nc):
+    t = torch.tensor(np.asarray(row, dtype=np.float64))
+    return torch.autograd.functional.jacobian(lambda x: separable_mixture(torch, x, dA, dB, nc), t).numpy()
+
+
+def kraus_to_choi_differential(K):
+    """the harness's own differential of K -> C[o,i,p,j] = sum_k K[k,o,i] conj(K[k,p,j]) at K (cr,dout,din), as a real matrix
+    acting on real views [re ; im]: dC = sum_k dK[k,o,i] conj(K[k,p,j]) + K[k,o,i] conj(dK[k,p,j])"""
+    K = np.asarray(K, dtype=np.complex128)
+    cols = []
+    for unit in (1.0, 1j):
+        for idx in range(K.size):
+            dK = np.zeros(K.shape, dtype=np.complex128)
+            dK.flat[idx] = unit
+            dC = np.einsum('koi,kpj->oipj', dK, K.conj()) + np.einsum('koi,kpj->oipj', K, dK.conj())
+            cols.append(real_view(dC))
+    return np.stack(cols, axis=1)
+
+
 def run_module(case, out, env):
-    """NOT COVERED: SeparableDensityMatrix (the set of mixtures of num_cha product states is a secant variety whose dimension
-    is not part of the property statement and is not given by a closed formula that could serve as an independent table)."""
+    """Rank oracles per class: the dimension table (module_expectation); SeparableDensityMatrix with explicit num_cha and
+    QuantumChannel(choi) over a phase-free chart have no table entry and are compared with a reference differential instead
+    (the harness's own mixture formula / the chain rule through the harness's own Kraus->Choi differential).
+    count_only (32-bit constructors): only the constructor's parameter count is compared with the table."""
     import numqi
     import torch
     c = case
     site = 'module/%s' % c['cls']
     kk = key_opts(c)
-    skip = {'kind', 'prec'}
+    skip = {'kind', 'prec', 'count_only'}
     ck = ','.join('%s=%s' % (k, c[k]) for k in sorted(c) if k not in skip)
-    cfg = '%s(%s)' % (c['cls'], ck)
+    cfg = '%s(%s%s)' % (c['cls'], ck, '' if c['prec'] == 64 else ',prec=%d' % c['prec'])
+    sep = c['cls'] == 'SeparableDensityMatrix'
+    pfc = phase_free_choi(c)
 
     def fail(cls_, what, **kw):
         out.violation('%s/%s/%s' % (site, cls_, kk), '%s: %s' % (cfg, what), config=c, **kw)
 
-    torch.manual_seed(0)  # the constructors draw their initial theta from the global torch generator
-    try:
-        mod, fref, extra = c01.build_module(numqi, c)
-    except Exception as e:
-        out.state()
-        out.trans()
-        if core.is_precondition_assert(e):
-            out.count('rejected_by_precondition')
-            return
-        fail('constructor_raises_%s' % type(e).__name__, 'constructor raised %r' % (e,))
+    def build(cfg_):
+        torch.manual_seed(0)  # the constructors draw their initial theta from the global torch generator
+        try:
+            return c01.build_module(numqi, cfg_)[0]
+        except Exception as e:
+            out.state()
+            out.trans()
+            if core.is_precondition_assert(e):
+                out.count('rejected_by_precondition')
+            else:
+                fail('constructor_raises_%s' % type(e).__name__, 'constructor raised %r' % (e,))
+            return None
+    mod = build(c)
+    if mod is None:
         return
     names = [k for k, _ in mod.named_parameters()]
     params = [p for _, p in mod.named_parameters()]
@@ -436,15 +538,65 @@ def run_module(case, out, env):
     ntot = sum(p.numel() for p in params)
     nper = ntot // nb
     expect, kspec, mspec = module_expectation(c, mod)
-    # constructor's parameter count against the table
-    if nper < expect:
-        fail('too_few_parameters', 'constructor allocates %d parameters per sample, manifold dimension %d' % (nper, expect))
-    if mspec is not None and is_minimal_chart(*mspec) and nper != expect:
-        fail('chart_not_minimal', 'minimal chart, but the constructor allocates %d parameters per sample for dimension %d' % (nper, expect))
     G = 2 if env.tier == 'quick' else 6
     atoms = atom_list(nper * nb, env, G, True, c['cls'], ck)
+    if sep:
+        dA, dB = c['dim'], c['dimB']
+        # default num_cha: the number of product terms is the library's choice (not documented) - read it off the parameter count
+        nc = nper // (1 + 2 * dA + 2 * dB) if c['num_cha'] is None else c['num_cha']
+        if nper != nc * (1 + 2 * dA + 2 * dB) or nc < 1:
+            # the reference formula needs this layout; a different count is a finding of its own (complex unit vectors: 2*dim reals each)
+            fail('unexpected_parameter_layout', 'constructor allocates %d parameters per sample, (%s product terms) x (1+2*%d+2*%d) expected' % (nper, c['num_cha'], dA, dB))
+            return
+    # constructor's parameter count against the table (explicit num_cha: against the rank of the reference mixture at the deterministic atom)
+    expect_count = expect
+    if expect_count is None and sep:
+        r0, _, _ = rank_autograd(separable_ref_jacobian(torch, atoms[0][1][:nper], dA, dB, nc), float(nper), 1.0)
+        expect_count = r0
+        if r0 is None:
+            out.count('undecided[reference_rank_for_parameter_count]')
+    if expect_count is not None and nper < expect_count:
+        fail('too_few_parameters', 'constructor allocates %d parameters per sample, manifold dimension %d' % (nper, expect_count))
+    if mspec is not None and is_minimal_chart(*mspec) and nper != expect:
+        fail('chart_not_minimal', 'minimal chart, but the constructor allocates %d parameters per sample for dimension %d' % (nper, expect))
+    if kspec is not None and c01.SPECS[kspec[0]].nparam(kspec[1]) != nper:
+        # the conditioning table (C01) is written for the documented theta layout: with another count no Jacobian verdict is possible
+        if not (expect_count is not None and nper < expect_count) and not (mspec is not None and is_minimal_chart(*mspec) and nper != expect):
+            fail('unexpected_parameter_layout', 'constructor allocates %d parameters per sample, the documented layout has %d' % (nper, c01.SPECS[kspec[0]].nparam(kspec[1])))
+        out.state()
+        out.trans()
+        out.trace()
+        return
+    if c.get('count_only'):
+        out.state()
+        out.trans()
+        out.outcome((c['cls'], ck, c['prec'], nper), nontrivial=nper > 0)
+        out.count('count_only_configurations')
+        out.trace()
+        out.sample = {'config': c, 'parameters_per_sample': nper, 'manifold_dimension': expect_count}
+        return
+    modk = None
+    if pfc:
+        modk = build(dict(c, return_kind='kraus'))
+        if modk is None:
+            return
     atoms = [('init', None)] + atoms
     ranks_seen = []
+
+    def jac(m, tens):
+        fs = [1.0]
+
+        def f(*ts):
+            y = torch.func.functional_call(m, dict(zip(names, ts)), ())
+            y = _flat_real(torch, y.reshape(nb, -1)) if nb == 1 else _batch_real(torch, y, nb)
+            fs[0] = float(y.detach().abs().max())
+            return y
+        with np.errstate(all='ignore'):
+            Js = torch.autograd.functional.jacobian(f, tuple(tens))
+        # Js[k]: (nb*m_out, *param_shape) -> (nb, m_out, nb, n_k)
+        blocks = [j.detach().numpy().reshape(nb, -1, nb, p.numel() // nb) for j, p in zip(Js, params)]
+        return np.concatenate(blocks, axis=3), fs[0]  # (nb, m, nb, nper)
+
     for label, th in atoms:
         if th is None:
             th = np.concatenate([p.detach().numpy().reshape(nb, -1) for p in params], axis=1).reshape(-1)
@@ -458,29 +610,23 @@ def run_module(case, out, env):
             off += m
         if kspec is not None:
             kap = float(np.max(c01.SPECS[kspec[0]].kappa(rows, kspec[1])))
+        elif sep:
+            # softmax and quotient spheres (C01 table: kappa = number of coordinates); a zero psi block is outside the domain
+            blk = rows[:, nc:]
+            nrm = np.concatenate([np.linalg.norm(blk[:, :nc * 2 * dA].reshape(nb, nc, -1), axis=2), np.linalg.norm(blk[:, nc * 2 * dA:].reshape(nb, nc, -1), axis=2)], axis=1)
+            kap = float(nper) if nrm.min() > 1e-30 else np.inf
         else:
             kap = 1.0
         if not np.isfinite(kap) or kap > KAPPA_CAP:
             out.count('skipped_ill_conditioned')
             continue
         out.state()
-        fs = [1.0]
-
-        def f(*ts):
-            y = torch.func.functional_call(mod, dict(zip(names, ts)), ())
-            y = _flat_real(torch, y.reshape(nb, -1)) if nb == 1 else _batch_real(torch, y, nb)
-            fs[0] = float(y.detach().abs().max())
-            return y
         try:
-            with np.errstate(all='ignore'):
-                Js = torch.autograd.functional.jacobian(f, tuple(tens))
+            Jfull, fscale = jac(mod, tens)
             out.trans()
         except Exception as e:
             fail('jacobian_raises_%s' % type(e).__name__, 'Jacobian of forward() raised %r (atom %s)' % (e, label), theta=th)
             break
-        # Js[k]: (nb*m_out, *param_shape) -> (nb, m_out, nb, n_k)
-        blocks = [j.detach().numpy().reshape(nb, -1, nb, p.numel() // nb) for j, p in zip(Js, params)]
-        Jfull = np.concatenate(blocks, axis=3)  # (nb, m, nb, nper)
         if not np.isfinite(Jfull).all():
             fail('jacobian_not_finite', 'NaN/Inf in the Jacobian of forward() at atom %s' % label, theta=th)
             continue
@@ -489,14 +635,49 @@ def run_module(case, out, env):
                 if i != j and np.abs(Jfull[i, :, j, :]).max() > 0:
                     fail('samples_coupled', 'output of batch sample %d depends on the parameters of sample %d (atom %s)' % (i, j, label), theta=th)
                     break
+        Jref = None  # per-sample reference differentials (classes without a table entry; default-num_cha mixtures: proof of the table)
+        if pfc:
+            try:
+                Jk, _ = jac(modk, tens)
+                with torch.no_grad():
+                    Kv = torch.func.functional_call(modk, dict(zip(names, tens)), ()).numpy().reshape((nb,) + (-1, c['dim_out'], c['dim']))
+                out.trans()
+            except Exception as e:
+                fail('jacobian_raises_%s' % type(e).__name__, 'Jacobian of the kraus twin raised %r (atom %s)' % (e, label), theta=th)
+                break
+            Jref = [kraus_to_choi_differential(Kv[i]) @ Jk[i, :, i, :] for i in range(nb)]
+        elif sep:
+            Jref = [separable_ref_jacobian(torch, rows[i], dA, dB, nc) for i in range(nb)]
         for i in range(nb):
-            got, s, why = rank_autograd(Jfull[i, :, i, :], kap, fs[0])
+            lab = label + ('' if bs is None else '[sample %d]' % i)
+            got, s, why = rank_autograd(Jfull[i, :, i, :], kap, fscale)
             if got is None:
                 out.count('undecided[%s]' % why)
                 continue
+            table = None if pfc else expect
+            if Jref is not None:
+                ref, sr, whyr = rank_autograd(Jref[i], kap, fscale)
+                if ref is None:
+                    out.count('undecided[reference:%s]' % whyr)
+                    continue
+                if table is not None:
+                    if ref == table:
+                        out.count('table_entry_proved_by_reference_rank')
+                    else:
+                        # the reference has the library's number of product terms: fewer terms than the full-dimensional separable
+                        # set needs show up here as well. The verdict below is against the table in any case.
+                        out.count('reference_rank_below_table_at_atom')
             ranks_seen.append(got)
             out.outcome((c['cls'], ck, got, np.round(s / max(s[0], 1e-300), 3) if len(s) else s), nontrivial=got > 0)
-            if not verdict(out, site, kk, label + ('' if bs is None else '[sample %d]' % i), got, expect, s, cfg, config=c, theta=rows[i]):
+            if Jref is not None:
+                out.count('rank_compared_with_%s' % ('kraus_chain_rule' if pfc else 'reference_mixture'))
+            if Jref is not None and got != ref:
+                cls_ = 'choi_rank_differs_from_kraus_chain_rule' if pfc else 'rank_differs_from_reference_mixture'
+                what = ('rank of d(choi)/d(theta) is %d, but (harness Kraus->Choi differential) x d(kraus)/d(theta) of the same module has rank %d' if pfc else
+                        'rank of the differential is %d, the mixture sum_c p_c |a_c b_c><a_c b_c| of the same parameters has rank %d') % (got, ref)
+                fail(cls_, 'atom %s: %s' % (lab, what), rank=got, expected=ref, singular_values=np.asarray(s)[:40], reference_singular_values=np.asarray(sr)[:40], theta=rows[i])
+                break
+            if table is not None and not verdict(out, site, kk, lab, got, table, s, cfg, config=c, theta=rows[i]):
                 break
     if not ranks_seen:
         out.count('no_decided_atom[%s,%s]' % (c['cls'], kk))
